@@ -80,6 +80,102 @@ func policyCall(v ssa.Value, recvTerm string, ak accessKinds) (call *ssa.Call, o
 	return call, true
 }
 
+// passFact: check(<arg>, kind) is known to have returned nil.
+type passFact struct {
+	kind int64
+	arg  ssa.Value // in the caller's values
+}
+
+// policyPassesImpliedBy: call is a call of a private helper of the wrapper
+// whose last result is an error; the result lists the policy checks that have
+// passed on EVERY path on which the helper returns nil (a helper that returns
+// the result of a policy call returns nil only if that check passed).
+func policyPassesImpliedBy(call *ssa.Call, ak accessKinds) []passFact {
+	h := call.Call.StaticCallee()
+	if h == nil || h.Blocks == nil || len(privateCallSites(h)) == 0 || h.Signature.Recv() == nil || len(h.Params) != len(call.Call.Args) {
+		return nil
+	}
+	res := h.Signature.Results()
+	if res.Len() == 0 || res.At(res.Len()-1).Type().String() != "error" {
+		return nil
+	}
+	recvTerm := facts.Term(h.Params[0])
+	type key struct {
+		kind int64
+		pi   int
+	}
+	var inter map[key]bool
+	for _, r := range returnsOf(h) {
+		ev := facts.RetVal(r, len(r.Results)-1)
+		here := map[key]bool{}
+		add := func(pc *ssa.Call) {
+			k, isC := facts.ConstInt(pc.Call.Args[1])
+			if !isC {
+				return
+			}
+			for i := range h.Params {
+				if argIsParam(pc.Call.Args[0], h, i) {
+					here[key{k, i}] = true
+				}
+			}
+		}
+		for _, cd := range facts.CondsAt(r.Block()) {
+			if x, isNil, ok := facts.NilCheck(cd); ok && isNil {
+				if pc, isPol := policyCall(x, recvTerm, ak); isPol {
+					add(pc)
+				}
+			}
+		}
+		switch {
+		case facts.IsNilConst(ev):
+		case facts.ProvablyNonNil(ev, r.Block()):
+			continue
+		default:
+			pc, isPol := policyCall(ev, recvTerm, ak)
+			if !isPol {
+				return nil // may return nil for reasons we cannot see
+			}
+			add(pc)
+		}
+		if inter == nil {
+			inter = here
+		} else {
+			for k := range inter {
+				if !here[k] {
+					delete(inter, k)
+				}
+			}
+		}
+	}
+	var out []passFact
+	for k := range inter {
+		out = append(out, passFact{k.kind, call.Call.Args[k.pi]})
+	}
+	return out
+}
+
+// helperReturnsPolicyErrors: every error the private helper can return is the
+// result of a policy check.
+func helperReturnsPolicyErrors(call *ssa.Call, ak accessKinds) bool {
+	h := call.Call.StaticCallee()
+	if h == nil || h.Blocks == nil || len(privateCallSites(h)) == 0 || h.Signature.Recv() == nil {
+		return false
+	}
+	recvTerm := facts.Term(h.Params[0])
+	n := 0
+	for _, r := range returnsOf(h) {
+		ev := facts.RetVal(r, len(r.Results)-1)
+		if facts.IsNilConst(ev) {
+			continue
+		}
+		n++
+		if _, isPol := policyCall(ev, recvTerm, ak); !isPol {
+			return false
+		}
+	}
+	return n > 0
+}
+
 func runC12(c *core.Ctx) {
 	ctor := c.P.Func("ocifilter", "AccessChecker")
 	ak := loadAccessKinds(c)
@@ -152,6 +248,14 @@ func runC12(c *core.Ctx) {
 					}
 					pc, ok := policyCall(x, recvTerm, ak)
 					if !ok {
+						// a private helper that bundles checks reported no error
+						if hc, isCall := facts.Resolve(x).(*ssa.Call); isCall {
+							for _, pf := range policyPassesImpliedBy(hc, ak) {
+								if pf.kind == kind && argOK(pf.arg) {
+									return true
+								}
+							}
+						}
 						continue
 					}
 					k, isC := facts.ConstInt(pc.Call.Args[1])
@@ -261,6 +365,9 @@ func runC12(c *core.Ctx) {
 				if _, isPol := policyCall(ev, recvTerm, ak); isPol && vr.nonNil(ev) {
 					ok = true
 				}
+				if hc, isCall := ev.(*ssa.Call); isCall && !ok && vr.nonNil(ev) && helperReturnsPolicyErrors(hc, ak) {
+					ok = true
+				}
 				for _, v := range vr.Vals[:n-1] {
 					if !isZero(v) {
 						ok = false
@@ -355,7 +462,32 @@ func checkC12Select(c *core.Ctx, ak accessKinds) {
 	isAllow := func(v ssa.Value) bool { return false }
 	for _, ci := range facts.CallsIn(sel) {
 		if hasSuffix(facts.CalleeName(ci.Common()), "ocifilter.AccessChecker") && len(ci.Common().Args) == 2 {
-			if mc, ok := facts.Resolve(ci.Common().Args[1]).(*ssa.MakeClosure); ok {
+			polArg := facts.Resolve(ci.Common().Args[1])
+			var viaHelper *ssa.Call
+			if hc, isCall := polArg.(*ssa.Call); isCall {
+				// a private constructor of the policy: func(allow) func(name, access) error
+				if h := hc.Call.StaticCallee(); h != nil && h.Blocks != nil && len(privateCallSites(h)) > 0 {
+					if rs := returnsOf(h); len(rs) == 1 {
+						if mc2, isMC := facts.RetVal(rs[0], 0).(*ssa.MakeClosure); isMC {
+							polArg, viaHelper = mc2, hc
+						}
+					}
+				}
+			}
+			if mc, ok := polArg.(*ssa.MakeClosure); ok && viaHelper != nil {
+				fn := mc.Fn.(*ssa.Function)
+				h := viaHelper.Call.StaticCallee()
+				for i, a := range viaHelper.Call.Args {
+					if idx, root, isP := rootParam(a); isP && root == sel && idx == 1 {
+						hi := i
+						pol = fn
+						isAllow = func(v ssa.Value) bool {
+							j, r2, isP2 := rootParam(v)
+							return isP2 && r2 == h && j == hi
+						}
+					}
+				}
+			} else if mc, ok := polArg.(*ssa.MakeClosure); ok {
 				fn := mc.Fn.(*ssa.Function)
 				if fn.Synthetic == "" {
 					pol = fn
